@@ -25,76 +25,85 @@ const (
 )
 
 type gRef struct {
+	Alias  bool // the reference names the target by its alias
 	Target int
 	VMode  int
 	VLit   string
-	For    []string // for-list items (nil = plain reference)
+	For    []string   // for-list items (nil = plain reference)
 	Matrix [][]string // two axes (nil = none); item label = a-b, row-major
 }
 
 type gCmd struct {
-	Kind   int
-	Defer  bool
-	Fail   int  // probe: exit code (0 = succeeds)
-	Ign    bool // ignore_error on the entry
-	Ref    gRef // call
-	For    []string // probe loops
-	Silent bool
+	Kind      int
+	Defer     bool
+	Fail      int      // probe: exit code (0 = succeeds)
+	Ign       bool     // ignore_error on the entry
+	Ref       gRef     // call
+	For       []string // probe loops
+	Silent    bool
 	DeferTplV bool // deferred call passes V: '{{.V}}' (known-defect trigger, C02 only)
 }
 
 type gTask struct {
-	Idx   int
-	Name  string
-	Run   string // "", always, once, when_changed
-	Deps  []gRef
-	Cmds  []gCmd
+	Idx    int
+	Name   string
+	Run    string // "", always, once, when_changed
+	Deps   []gRef
+	Cmds   []gCmd
 	IgnErr bool
 	Silent bool
 	// guards
-	Platform  string // "", match, nomatch
-	Requires  string // "", "set" (V required, any), "enum" (V in [a,b])
-	Precond   int    // 0 none 1 passing 2 failing
-	Prompt    bool
-	Internal  bool
-	VUse      string // "cmd" (default), "env": where a when_changed task lets V surface
-	Dir       string
-	DynVar    bool
+	Platform string // "", match, nomatch
+	Requires string // "", "set" (V required, any), "enum" (V in [a,b])
+	Precond  int    // 0 none 1 passing 2 failing
+	Prompt   bool
+	Internal bool
+	VUse     string // "cmd" (default), "env": where a when_changed task lets V surface
+	Dir      string
+	DynVar   bool
 }
 
 type gRoot struct {
+	Alias  bool
 	Target int
 	V      string
 	HasV   bool
 }
 
 type gProg struct {
-	Tasks    []*gTask
-	FileRun  string
-	Roots    []gRoot
-	Parallel bool
-	Conc     int
-	Output   string // "", group, prefixed
-	GroupBegin, GroupEnd bool
-	ErrorOnly bool
+	Tasks                            []*gTask
+	FileRun                          string
+	Roots                            []gRoot
+	Parallel                         bool
+	Conc                             int
+	Output                           string // "", group, prefixed
+	GroupBegin, GroupEnd             bool
+	ErrorOnly                        bool
 	Force, ForceAll, Yes, AssumeTerm bool
-	Answer   string // "", "y", "n", "eof"
-	ExitCodeFlag bool
-	FileSilent bool
-	CancelAtEvent int // 0 = none; cancel the caller ctx at the k-th probe event
-	IncDefaultV   bool // the included Taskfile declares a top-level var V ('incv'): call vars must still win
-	IncSplit      int // 0 = single file; otherwise tasks with Idx >= IncSplit live in inc/Taskfile.yml, included as namespace "n"
+	Answer                           string // "", "y", "n", "eof"
+	ExitCodeFlag                     bool
+	FileSilent                       bool
+	CancelAtEvent                    int  // 0 = none; cancel the caller ctx at the k-th probe event
+	IncDefaultV                      bool // the included Taskfile declares a top-level var V ('incv'): call vars must still win
+	IncSplit                         int  // 0 = single file; otherwise tasks with Idx >= IncSplit live in inc/Taskfile.yml, included as namespace "n"
 }
 
 // refName is the name by which task `to` is referenced from task `from` (or from the command line when from < 0).
-func (p *gProg) refName(from, to int) string {
+func (p *gProg) refName(from, to int) string { return p.refNameA(from, to, false) }
+
+// refNameA: alias=true names the target by its alias ("al-<name>"; aliases are namespaced like names).
+func (p *gProg) refNameA(from, to int, alias bool) string {
+	n := p.Tasks[to].Name
+	if alias {
+		n = "al-" + strings.ReplaceAll(n, ":", "-")
+	}
 	if p.IncSplit == 0 || to < p.IncSplit {
-		return p.Tasks[to].Name
+		return n
 	}
 	if from >= p.IncSplit {
-		return p.Tasks[to].Name // both live in the included file: local name
+		return n // both live in the included file: local name
 	}
-	return "n:" + p.Tasks[to].Name
+	return "n:" + n
 }
 
 type gBias struct {
@@ -138,6 +147,7 @@ func genRef(ch *vs.Choices, p *gProg, from, n int, b gBias, allowLoop bool) (gRe
 		return gRef{}, false
 	}
 	r := gRef{Target: from + 1 + ch.Draw(n-from-1)}
+	r.Alias = ch.Bool(1, 5)
 	if b.FanIn && n-from-1 > 1 && ch.Bool(1, 2) {
 		// bias towards the last tasks so that many callers share them
 		r.Target = n - 1 - ch.Draw(2)
@@ -258,6 +268,15 @@ func genG(ch *vs.Choices, b gBias) *gProg {
 		}
 		p.Tasks = append(p.Tasks, t)
 	}
+	// deduplicated tasks may be given names that differ only before the last ':' ("q3:job", "q5:job"): the
+	// identity of a run: once task is its whole name
+	if ch.Bool(1, 4) {
+		for _, t := range p.Tasks {
+			if effRun(p, t) != "always" {
+				t.Name = fmt.Sprintf("q%d:job", t.Idx)
+			}
+		}
+	}
 	// roots
 	nr := 1
 	if b.Parallel && ch.Bool(1, 3) {
@@ -265,7 +284,7 @@ func genG(ch *vs.Choices, b gBias) *gProg {
 		p.Parallel = ch.Bool(3, 4)
 	}
 	for k := 0; k < nr; k++ {
-		r := gRoot{Target: ch.Draw(min(n, 2))}
+		r := gRoot{Target: ch.Draw(min(n, 2)), Alias: ch.Bool(1, 5)}
 		if ch.Bool(1, 2) {
 			r.HasV = true
 			r.V = vPool[ch.Draw(len(vPool))]
@@ -319,8 +338,9 @@ func gSanitize(p *gProg, b gBias) {
 		run := effRun(p, t)
 		fix := func(r *gRef) {
 			tr := effRun(p, p.Tasks[r.Target])
-			if tr == "once" {
-				// a once task runs with whatever its first caller passed: never pass V to it
+			if tr == "once" && p.Tasks[r.Target].Requires == "" {
+				// a once task runs with whatever its first caller passed: never pass V to it (unless it has a
+				// requires guard: that one is evaluated per call, before deduplication)
 				if r.VMode != vNone {
 					r.VMode = vNone
 				}
@@ -360,11 +380,7 @@ func gSanitize(p *gProg, b gBias) {
 				t.Cmds[0].Fail = 0
 			}
 		}
-		if run == "once" {
-			if t.Requires != "" {
-				t.Requires = "" // V is never passed to once tasks
-			}
-		}
+
 	}
 	// internal root targets are only useful for C13; otherwise strip
 	if b.PGuard == 0 {
@@ -574,8 +590,9 @@ func (p *gProg) render(lo, hi int, root bool) string {
 		sb.WriteString("tasks:\n")
 	}
 	for _, t := range p.Tasks[lo:hi] {
-		fmt.Fprintf(&sb, "  %s:\n", t.Name)
+		fmt.Fprintf(&sb, "  %s:\n", yq(t.Name))
 		fmt.Fprintf(&sb, "    desc: task %s\n", t.Name)
+		fmt.Fprintf(&sb, "    aliases: [%s]\n", "al-"+strings.ReplaceAll(t.Name, ":", "-"))
 		if t.Run != "" {
 			fmt.Fprintf(&sb, "    run: %s\n", t.Run)
 		}
@@ -632,7 +649,7 @@ func (p *gProg) render(lo, hi int, root bool) string {
 					}
 				}
 				item(renderFor(d))
-				item("task: " + p.refName(t.Idx, d.Target))
+				item("task: " + yq(p.refNameA(t.Idx, d.Target, d.Alias)))
 				item(renderRefVars(p, t, d, edge, false))
 			}
 		}
@@ -670,14 +687,14 @@ func (p *gProg) render(lo, hi int, root bool) string {
 			edge := "c" + labelExpr(k, c.Ref.For != nil, c.Ref.Matrix != nil)
 			if c.Defer {
 				v := renderRefVars(p, t, c.Ref, edge, c.DeferTplV)
-				fmt.Fprintf(&sb, "      - defer:\n          task: %s\n", p.refName(t.Idx, c.Ref.Target))
+				fmt.Fprintf(&sb, "      - defer:\n          task: %s\n", yq(p.refNameA(t.Idx, c.Ref.Target, c.Ref.Alias)))
 				if v != "" {
 					fmt.Fprintf(&sb, "          %s\n", v)
 				}
 				continue
 			}
 			item(renderFor(c.Ref))
-			item("task: " + p.refName(t.Idx, c.Ref.Target))
+			item("task: " + yq(p.refNameA(t.Idx, c.Ref.Target, c.Ref.Alias)))
 			item(renderRefVars(p, t, c.Ref, edge, false))
 			if c.Silent {
 				item("silent: true")
@@ -690,7 +707,7 @@ func (p *gProg) render(lo, hi int, root bool) string {
 func (p *gProg) Config() map[string]any {
 	roots := []string{}
 	for i, r := range p.Roots {
-		s := p.refName(-1, r.Target)
+		s := p.refNameA(-1, r.Target, r.Alias)
 		if effRun(p, p.Tasks[r.Target]) == "always" {
 			s += fmt.Sprintf(" P=r%d", i)
 		}
